@@ -63,7 +63,7 @@ RULE = ("chain: proposal x num_particles {1,2,5} x resample_threshold {0,1/2,1} 
         "every single-factor change of the default configuration + a pairwise covering set of all factor values + the full 648-"
         "configuration product proposal x N x threshold x outlier_prob x subtree_prob on 1 and 2 data points + a seeded quarter of "
         "the core product; thorough = the full core product twice (two data/numpy seeds, other factors drawn) + the full product of "
-        "the other factors on 24 core picks.  Data: exact dyadic likelihoods (harness.common.gen_dataset) or load_data on a TSV of "
+        "the other factors on 24 core picks; both tiers add random corners on 4-6 data points with up to 10 particles (60 / 1500).  Data: exact dyadic likelihoods (harness.common.gen_dataset) or load_data on a TSV of "
         "1-3 mutations x 1-2 samples with boundary counts.  A case is non-trivial when every option is in the CLI-accepted range, "
         "the run completes and records at least two entries; distinct = distinct configuration.  Malformed (thin 0, 0 particles) "
         "and API-only (burnin 0) cases are compared with the model's guards only.")
@@ -728,6 +728,7 @@ def cases(tier, rnd):
         rnd.shuffle(core)
         out += [_cfg(rnd, **c, **_rand_other(rnd)) for c in core[: len(core) // 4]]
         n_tsv = 40
+        n_big = 60
     else:
         for _ in range(2):
             out += [_cfg(rnd, **c, **_rand_other(rnd)) for c in core]
@@ -735,7 +736,13 @@ def cases(tier, rnd):
         others = _product(OTHER)
         out += [_cfg(rnd, **c, **o) for c in picks for o in others]
         n_tsv = 400
+        n_big = 1500
     out += [_tsv_case(rnd) for _ in range(n_tsv)]
+    # beyond three data points: random corners on 4-6 data points, up to 10 particles
+    for _ in range(n_big):
+        c = {k: rnd.choice(v) for k, v in CORE.items()}
+        c.update(n=rnd.choice([4, 4, 5, 6]), N=rnd.choice([1, 2, 5, 10]))
+        out.append(_cfg(rnd, **c, **_rand_other(rnd)))
     # malformed / API-only: compared with the model's guards, never judged
     out += [_cfg(rnd, thin=0), _cfg(rnd, thin=0, burnin=2, n=1), _cfg(rnd, N=0), _cfg(rnd, N=0, n=3, burnin=2, op="1/2"),
             _cfg(rnd, pf=0), _cfg(rnd, num_iters=0), _cfg(rnd, num_iters=0, burnin=0)]
